@@ -115,6 +115,15 @@ def plan_st(draw, tier):
             forced_frames.add(len(h.ops))
             h.ops.append([draw(st.sampled_from(["predict", "predict_expectations"])),
                           draw(gen.contexts_st(m, h.d, h.grid))])
+    # decisions in a narrower array type than numpy would pick by itself: float labels as a float32 array, small integer
+    # labels as int16 / int32 - only when every label is exactly representable in that type (a float32 array cannot hold
+    # the label 0.1 or 2499.99; such an array does not contain "the same decisions" and is not generated)
+    labels = list(cfg["arms"]) + [o[1] for o in h.ops if o[0] == "add_arm"]
+    narrow_dec = []
+    if all(isinstance(a, float) for a in labels) and all(float(np.float32(a)) == a for a in labels):
+        narrow_dec = ["ndarray_float32"]
+    elif all(isinstance(a, int) and not isinstance(a, bool) and abs(a) < 2 ** 15 for a in labels):
+        narrow_dec = ["ndarray_int16", "ndarray_int32"]
     renders = []
     for i_op, op in enumerate(h.ops):
         r = {}
@@ -122,7 +131,10 @@ def plan_st(draw, tier):
             renders.append({"ctx": "dataframe"})
             continue
         if op[0] in ops.TRAIN_OPS:
-            r["dec"] = draw(st.sampled_from(["list", "ndarray", "series"]))
+            dk = ["list", "ndarray", "series"]
+            if narrow_dec:
+                dk += narrow_dec * 2
+            r["dec"] = draw(st.sampled_from(dk))
             rk = ["list", "ndarray_float", "series"]
             if all(float(x).is_integer() for x in op[2]):
                 rk.append("ndarray_int")
